@@ -64,6 +64,17 @@ OtherEnc == [abs |-> TRUE, scheme |-> "http", host |-> <<L("other"), L("example"
              port |-> <<>>, base |-> <<"my%20api">>, slash |-> FALSE]
 OtherHost == [abs |-> TRUE, scheme |-> "http", host |-> <<L("other"), L("example"), L("com")>>,
               port |-> <<>>, base |-> <<>>, slash |-> FALSE]
+(* lists of servers that agree in everything but one component, and one that repeats a server *)
+ApiHttp == [AbsV1 EXCEPT !.scheme = "http"]
+Api8443 == [AbsV1 EXCEPT !.port = <<L("8443")>>]
+OtherHttps == [OtherHost EXCEPT !.scheme = "https"]
+(* server variables in the base path (WithBV: segment i of the base path is the variable v, its default is  *)
+(* the segment), and server variables -- in the base path, the host, the port -- that are named like a     *)
+(* variable of a path template ("x": the first variable of the lowest-ranked template and others, "y": the *)
+(* first variable of the second template / the second of the first): ONE map of path parameters is         *)
+(* returned, and what it holds under a shared name must be the path template's value                       *)
+WithBV(sv, bv) == [bv |-> bv] @@ sv
+RelV1 == [abs |-> FALSE, base |-> <<"v1">>, slash |-> FALSE]
 ServerShapes ==
    [none     |-> <<>>,
     rel      |-> <<[abs |-> FALSE, base |-> <<"b">>, slash |-> FALSE]>>,
@@ -76,22 +87,37 @@ ServerShapes ==
     two      |-> <<AbsV1, OtherEnc>>,
     \* one base path is a string prefix of the other (/v1 and /v10)
     relpfx   |-> <<[abs |-> FALSE, base |-> <<"v1">>, slash |-> FALSE], [abs |-> FALSE, base |-> <<"v10">>, slash |-> FALSE]>>,
-    abspfx   |-> <<AbsV1, [AbsV1 EXCEPT !.base = <<"v10">>]>>]
+    abspfx   |-> <<AbsV1, [AbsV1 EXCEPT !.base = <<"v10">>]>>,
+    schemes  |-> <<ApiHttp, AbsV1>>,                             \* http://api.example.com/v1, https://api.example.com/v1
+    ports    |-> <<Api8443, AbsV1>>,                             \* https://api.example.com:8443/v1, https://api.example.com/v1
+    dup      |-> <<AbsV1, [AbsV1 EXCEPT !.slash = TRUE]>>,       \* https://api.example.com/v1, https://api.example.com/v1/
+    absbv    |-> <<WithBV([AbsV1 EXCEPT !.base = <<"v1", "api">>], <<[i |-> 1, v |-> "ver"]>>)>>,      \* https://api.example.com/{ver}/api
+    relbv    |-> <<WithBV([abs |-> FALSE, base |-> <<"b", "v1">>, slash |-> FALSE], <<[i |-> 2, v |-> "ver"]>>)>>,   \* /b/{ver}
+    absbvx   |-> <<WithBV(AbsV1, <<[i |-> 1, v |-> "x"]>>)>>,    \* https://api.example.com/{x}
+    relbvx   |-> <<WithBV(RelV1, <<[i |-> 1, v |-> "y"]>>)>>,    \* /{y}
+    abshx    |-> <<[AbsV1 EXCEPT !.host = <<[v |-> "x", d |-> "api"], L("example"), L("com")>>]>>,    \* https://{x}.example.com/v1
+    abspx    |-> <<[AbsV1 EXCEPT !.port = <<[v |-> "y", d |-> "8443"]>>]>>]                             \* https://api.example.com:{y}/v1
 (* path-level servers: the document declares https://api.example.com/v1, the path item   *)
 (* of the lowest-ranked ("psfirst") / highest-ranked ("pslast") template declares        *)
 (* http://other.example.com instead                                                      *)
-OverrideKeys == {"psfirst", "pslast"}
+(* ("psschemes": the last template's path item declares http://other.example.com and     *)
+(* https://other.example.com)                                                            *)
+OverrideKeys == {"psfirst", "pslast", "psschemes"}
+LastOverrideKeys == {"pslast", "psschemes"}
+OwnServers(sk) == CASE sk = "psfirst" -> <<OtherHost>> [] sk = "pslast" -> <<OtherEnc>> [] sk = "psschemes" -> <<OtherHost, OtherHttps>>
 ServerKeys == DOMAIN ServerShapes \cup OverrideKeys
 SrvRank(k) == CASE k = "none" -> 1 [] k = "rel" -> 2 [] k = "relslash" -> 3 [] k = "relroot" -> 4
                 [] k = "abs" -> 5 [] k = "absvar" -> 6 [] k = "two" -> 7 [] k = "psfirst" -> 8 [] k = "pslast" -> 9
-                [] k = "relpfx" -> 10 [] k = "abspfx" -> 11
+                [] k = "relpfx" -> 10 [] k = "abspfx" -> 11 [] k = "schemes" -> 12 [] k = "ports" -> 13 [] k = "dup" -> 14
+                [] k = "absbv" -> 15 [] k = "relbv" -> 16 [] k = "absbvx" -> 17 [] k = "relbvx" -> 18 [] k = "abshx" -> 19
+                [] k = "abspx" -> 20 [] k = "psschemes" -> 21
 
-WithOwn(t, sv) == [segs |-> t.segs, ops |-> t.ops, servers |-> <<sv>>]
+WithOwn(t, svs) == [segs |-> t.segs, ops |-> t.ops, servers |-> svs]
 Doc(tm, sk) ==
    LET ts == Templates(tm) IN
    IF sk \in OverrideKeys
    THEN LET w == IF sk = "psfirst" THEN 1 ELSE Len(ts) IN
-        [templates |-> [k \in 1..Len(ts) |-> IF k = w THEN WithOwn(ts[k], IF sk = "psfirst" THEN OtherHost ELSE OtherEnc) ELSE ts[k]], servers |-> <<AbsV1>>]
+        [templates |-> [k \in 1..Len(ts) |-> IF k = w THEN WithOwn(ts[k], OwnServers(sk)) ELSE ts[k]], servers |-> <<AbsV1>>]
    ELSE [templates |-> ts, servers |-> ServerShapes[sk]]
 
 -----------------------------------------------------------------------------
@@ -142,6 +168,15 @@ Under(s, p) ==
    IF s.abs THEN [abs |-> TRUE, scheme |-> s.scheme, host |-> [i \in 1..Len(s.host) |-> Dflt(s.host[i])],
                   port |-> [i \in 1..Len(s.port) |-> Dflt(s.port[i])], path |-> s.base \o p]
    ELSE [abs |-> FALSE, path |-> s.base \o p]
+
+(* the same with every host and base-path variable of the server at the value val (a port variable stays at *)
+(* its default: another port is an open region)                                                              *)
+HasVars(s) == HostVarNames(s) \cup BaseVarNames(s) # {}
+UnderAlt(s, p, val) ==
+   LET b == [i \in 1..Len(s.base) |-> IF BaseVarAt(s, i) THEN val ELSE s.base[i]] IN
+   IF s.abs THEN [abs |-> TRUE, scheme |-> s.scheme, host |-> [i \in 1..Len(s.host) |-> IF IsVar(s.host[i]) THEN val ELSE s.host[i].l],
+                  port |-> [i \in 1..Len(s.port) |-> Dflt(s.port[i])], path |-> b \o p]
+   ELSE [abs |-> FALSE, path |-> b \o p]
 
 AbsAt(scheme, host, port, p) == [abs |-> TRUE, scheme |-> scheme, host |-> host, port |-> port, path |-> p]
 
@@ -206,7 +241,9 @@ Requests(doc) ==
        encv == IF kind = "mixed" THEN {}
                ELSE UNION {{[m |-> t.ops[1].m, u |-> Under(S[1], [BaseFill(t) EXCEPT ![i] = x])] :
                               i \in {j \in 1..Len(t.segs) : IsVar(t.segs[j])}, x \in {"x%20y", "a%2Fb"}} : t \in T}
-   IN {r \in main \cup odd \cup srv \cup tails \cup encv : WellFormed(r)}
+       \* server variables at other values than their defaults: "v2", and "v" -- the value BaseFill gives a path variable
+       altv == UNION {{[m |-> t.ops[1].m, u |-> UnderAlt(sv, BaseFill(t), val)] : val \in {"v2", "v"}, sv \in {x \in AllServers(doc) : HasVars(x)}} : t \in T}
+   IN {r \in main \cup odd \cup srv \cup tails \cup encv \cup altv : WellFormed(r)}
 
 (* The order the requests of a document are run in (one router instance per chunk of     *)
 (* this sequence): first the main URLs, each with GET and then POST back to back -- so    *)
